@@ -238,7 +238,8 @@ class Interp(object):
             return v
         if canon == "copy.deepcopy" and args:
             a = args[0]
-            return Val(ctx=a.ctx, fresh=Fresh(st.loops, call), origin="deepcopy of %s" % (a.origin or "value"))
+            return Val(ctx=a.ctx, fresh=Fresh(st.loops, call), origin="deepcopy of %s" % (a.origin or "value"),
+                       labels=a.all_labels())
         if canon in ("copy.copy", "builtins.dict", "builtins.list", "builtins.tuple", "builtins.set") and args:
             a = args[0]
             # shallow: a new container whose items are the old items
